@@ -36,3 +36,24 @@ fn k_retry_rule() {
     let e = error_if_error(a, b);
     match (a, b) { (Err(x), _) => assert!(e == Err(x)), (Ok(()), y) => assert!(e == y) }
 }
+
+/// C06 / C12: the tags the snapshot and op-log formats store as integers survive the round trip through their byte encoding, and every
+/// possible stored integer decodes to some tag without panicking (a damaged file cannot crash the loader through these conversions)
+#[kani::proof]
+fn k_disk_tag_round_trips() {
+    // ValueStatus: 4 bytes little endian in the values file
+    let st = match kani::any::<u8>() % 4 { 0 => ValueStatus::Ok, 1 => ValueStatus::Deleted, 2 => ValueStatus::Updated, _ => ValueStatus::New };
+    let back = ValueStatus::from(i32::from_le_bytes(st.to_le_bytes()));
+    assert!(back == st);
+    let any_stored: i32 = kani::any();
+    let _ = ValueStatus::from(any_stored);
+    // ReplicateOpp: one byte per op-log record
+    let op = match kani::any::<u8>() % 4 { 0 => ReplicateOpp::Update, 1 => ReplicateOpp::Remove, 2 => ReplicateOpp::CreateDb, _ => ReplicateOpp::Snapshot };
+    assert!(ReplicateOpp::from(op.to_u8()).to_u8() == op.to_u8());
+    let any_byte: u8 = kani::any();
+    assert!(ReplicateOpp::from(any_byte).to_u8() <= 3);
+    // ConsensuStrategy: stored as an integer in the database metadata file
+    let any_strategy: i32 = kani::any();
+    let s = ConsensuStrategy::from(any_strategy);
+    assert!(match s { ConsensuStrategy::Arbiter => any_strategy == 2, ConsensuStrategy::Newer => any_strategy == 1, ConsensuStrategy::None => any_strategy != 1 && any_strategy != 2 });
+}
